@@ -635,8 +635,75 @@ func c09GenRace(w *bufio.Writer, r *rng) {
 	}
 }
 
+// c09CaseVariants: per-label case variations of a name: as given, all lower, all upper, first
+// label upper only, one letter of the first label, everything but the first label upper, one
+// letter of the rest, and a random flip.
+func c09CaseVariants(r *rng, name string) []string {
+	lower, upper := strings.ToLower(name), strings.ToUpper(name)
+	first, rest := lower, ""
+	if i := strings.Index(lower, "."); i >= 0 {
+		first, rest = lower[:i], lower[i:]
+	}
+	oneUp := func(s string) string {
+		b := []byte(s)
+		for tries := 0; tries < 20 && len(b) > 0; tries++ {
+			if i := r.intn(len(b)); b[i] >= 'a' && b[i] <= 'z' {
+				b[i] -= 32
+				break
+			}
+		}
+		return string(b)
+	}
+	return []string{name, lower, upper, strings.ToUpper(first) + rest, oneUp(first) + rest,
+		first + strings.ToUpper(rest), first + oneUp(rest), c09FlipCase(r, name)}
+}
+
+// c09GenCaseMatrix: an exact pattern E and the wildcards covering it (`*.base(E)`, sometimes
+// `*.base(base(E))`) stored together, with metrics that make the wildcard the cheaper one; then E,
+// a sibling of E and a deeper name are looked up in every per-label case variation - before and
+// after withdrawing the exact route, and the other way round (wildcard withdrawn, exact kept).
+func c09GenCaseMatrix(w *bufio.Writer, r *rng) {
+	hx := func(s string) string { return hexTok([]byte(s)) }
+	fmt.Fprintln(w, "reset 1")
+	labels := []string{"api", "www", "Mail", "db-1", "x"}
+	bases := []string{"example.com", "Example.COM", "corp.internal", "a.b.c", "Zone9.test"}
+	e := labels[r.intn(len(labels))] + "." + bases[r.intn(len(bases))]
+	base := e[strings.Index(e, ".")+1:]
+	// stored spellings are themselves case-varied
+	fmt.Fprintf(w, "dadv %s 2 2 %d 1 2\n", hx(c09FlipCase(r, e)), 5+r.intn(4))
+	fmt.Fprintf(w, "dadv %s 3 3 %d 1 3\n", hx("*."+c09FlipCase(r, base)), r.intn(3))
+	if i := strings.Index(base, "."); i >= 0 && r.chance(50) {
+		fmt.Fprintf(w, "dadv %s 4 4 0 1 4\n", hx("*."+base[i+1:]))
+	}
+	if r.chance(50) { // a second origin on the exact pattern, cheaper than the first
+		fmt.Fprintf(w, "dadv %s 4 4 %d 1 4\n", hx(strings.ToUpper(e)), 3+r.intn(2))
+	}
+	names := []string{e, "other." + base, "deep." + e, base}
+	look := func() {
+		for _, n := range names {
+			for _, v := range c09CaseVariants(r, n) {
+				fmt.Fprintf(w, "dlook %s\n", hx(v))
+			}
+		}
+	}
+	look()
+	if r.chance(50) {
+		fmt.Fprintf(w, "drm %s 2\ndrm %s 4\n", hx(strings.ToLower(e)), hx(e))
+	} else {
+		fmt.Fprintf(w, "drm %s 3\n", hx("*."+strings.ToUpper(base)))
+	}
+	look()
+}
+
 func c09Gen(w *bufio.Writer, seed int64, tier string) {
 	r := newRng(c09Mix(seed))
+	matrix := 6
+	if tier == "thorough" || seed >= 1000 {
+		matrix = 120
+	}
+	for c := 0; c < matrix; c++ {
+		c09GenCaseMatrix(w, r)
+	}
 	races := 8
 	if tier == "thorough" || seed >= 1000 {
 		races = 60
